@@ -556,6 +556,41 @@ class SOpaque(Sym):
         return 'SOpaque<%s>' % self.label
 
 
+class STerm(Sym):
+    """A value of an uninterpreted (or any z3) sort: supports ==, != and conditional merge only.
+    `pytypes` lists the Python types it claims to be an instance of (e.g. (str,) for names)."""
+
+    def __init__(self, term, pytypes=(), label=None):
+        self.term = term
+        self.pytypes = tuple(pytypes)
+        self.label = label or str(term)
+
+    def compare(self, ctx, op, other, reflected):
+        if op in ('==', '!='):
+            if isinstance(other, STerm) and other.term.sort() == self.term.sort():
+                e = self.term == other.term
+                return SBool(e if op == '==' else z3.Not(e))
+            return op == '!='
+        return NotImplemented
+
+    def isinstance_(self, ctx, types):
+        return any(t in self.pytypes for t in types)
+
+    def truth(self, ctx):
+        return True
+
+    def merge_with(self, c, other, reflected):
+        if isinstance(other, STerm) and other.term.sort() == self.term.sort() and other.pytypes == self.pytypes:
+            return STerm(z3.If(c, other.term, self.term) if reflected else z3.If(c, self.term, other.term), self.pytypes)
+        return NotImplemented
+
+    def havoc(self, ctx, name):
+        return STerm(ctx.const(name, self.term.sort(), report=False), self.pytypes)
+
+    def __repr__(self):
+        return 'STerm(%s)' % self.term
+
+
 # -------------------------------------------------------------- merge (ite) --
 
 def merge(c, a, b):
